@@ -53,3 +53,12 @@ BOUNDS_EXC = {
         "`&mut self.buffer[buffer_start_sz..]` directly after self.buffer.resize(buffer_start_sz + header.size, 0): the start is the old length, "
         "which is at most the new length (header.size is bounded by C09.3)"),
 }
+
+
+# arithmetic on decoded lengths (overflow audit): {(fn skey, 'Add'|'Sub'|'Mul'): (max unproved sites, why)}
+OVERFLOW_EXC = {
+    ("sst::block::Block::new", "Sub"): (2, _BLOCK_CRC +
+        "`bytes.len() - capstone - 4 * num_restarts` and `restarts_idx - footer_head` use the restart count stored in the block's last four "
+        "bytes without comparing it with the block length; a block that passed its CRC carries the count its builder wrote (observation O2 of "
+        "round 0: for a block whose CRC collides, this subtraction is where it would fail)"),
+}
